@@ -303,10 +303,15 @@ def is_public(f):
 
 
 def loop_every_iteration(fn, next_call, must_block):
-    """every path from just after `next_call` that comes back to it passes `must_block`"""
+    """every iteration of the loop driven by `next_call` that comes back for another element passes `must_block`
+    (paths leaving the loop, e.g. exhaustion or an error return, are not iterations)"""
     import paths
-    start = next_call.target
-    return paths.must_pass(fn, start, [next_call.bb], [must_block])
+    loop = paths.natural_loop(fn, next_call.bb)
+    if not loop:
+        return False
+    outside = set(range(fn.n)) - loop
+    r = fn.reachable(next_call.target, avoid=outside | {must_block})
+    return next_call.bb not in r
 
 
 def cursor_root_call(fn, t):
